@@ -1510,6 +1510,47 @@ func main() {
 			a.namedTys = append(a.namedTys, t, types.NewPointer(t))
 		}
 	}
+	// A guarded field whose type comes from sync/atomic (atomic.Pointer[T],
+	// atomic.Bool, ...) synchronises itself: every access goes through the
+	// type's methods.  The guard declared for it is not required (listed in
+	// the side output as atomic_fields); what is stored behind an
+	// atomic.Pointer is not followed.
+	var atomicFields []string
+	for _, p := range pkgs {
+		sc := p.Types.Scope()
+		for _, n := range sc.Names() {
+			tn, ok := sc.Lookup(n).(*types.TypeName)
+			if !ok || tn.IsAlias() {
+				continue
+			}
+			st, ok := tn.Type().Underlying().(*types.Struct)
+			if !ok {
+				continue
+			}
+			for i := 0; i < st.NumFields(); i++ {
+				k := a.structFieldKey(tn.Type(), i)
+				if k == "" || len(guards[k]) == 0 {
+					continue
+				}
+				if nt, ok := types.Unalias(st.Field(i).Type()).(*types.Named); ok && nt.Obj().Pkg() != nil && nt.Obj().Pkg().Path() == "sync/atomic" {
+					atomicFields = append(atomicFields, k)
+					delete(guards, k)
+				}
+			}
+		}
+	}
+	sort.Strings(atomicFields)
+	for k := range a.byStruct {
+		delete(a.byStruct, k)
+	}
+	for k := range guards {
+		if i := strings.LastIndex(k, "."); i > 0 {
+			a.byStruct[k[:i]] = append(a.byStruct[k[:i]], k)
+		}
+	}
+	for _, v := range a.byStruct {
+		sort.Strings(v)
+	}
 	// all functions of the repository, in a deterministic order
 	all := ssautil.AllFunctions(prog)
 	var fl []*ssa.Function
@@ -1798,7 +1839,7 @@ func main() {
 		rn = append(rn, r.name+" = "+a.fnName(r.fn))
 	}
 	js := map[string]any{"known_keys": known, "accesses": al, "lock_order": ol, "unresolved": unres, "roots": rn,
-		"address_escapes": a.addrEscapes, "functions_reached": len(reachedFns), "functions_total": len(a.order), "guarded_fields": len(guards)}
+		"address_escapes": a.addrEscapes, "atomic_fields": atomicFields, "functions_reached": len(reachedFns), "functions_total": len(a.order), "guarded_fields": len(guards)}
 	os.MkdirAll(filepath.Join(verif, "work"), 0o755)
 	f, err := os.Create(filepath.Join(verif, "work", "locktable.json"))
 	if err == nil {
